@@ -353,6 +353,26 @@ theorem proxy_cancel (p : ProxySubs) (id : Nat) :
   have := (cancel_spec (p.cancel id).1 id).1
   rw [this]; simp [h2]
 
+/-- `proxy_cancel_per_proxy`.  Several proxies - on one connection or on several, where rule ids are numbered from 0
+on each - each have their own set of cancellable ids: `cancelSignalNotification(id)` on proxy `p` calls `delMatch(id)`
+iff `id` is a current subscription OF `p` (whatever equal ids other proxies hold, and whatever they cancelled
+before), and neither a subscription (`on_ok`) nor a cancel on `p` changes what any other proxy `q` may cancel. -/
+theorem proxy_cancel_per_proxy (t : List ProxySubs) (p id : Nat) :
+    ((ProxyTable.cancel t p id).2 = if id ∈ (ProxyTable.get t p).rules then some id else none)
+    ∧ id ∉ (ProxyTable.get (ProxyTable.cancel t p id).1 p).rules
+    ∧ (∀ q, q ≠ p → ProxyTable.get (ProxyTable.cancel t p id).1 q = ProxyTable.get t q)
+    ∧ (∀ q, q ≠ p → ProxyTable.get (ProxyTable.onOk t p id) q = ProxyTable.get t q) := by
+  obtain ⟨h1, h2, _, _⟩ := proxy_cancel (ProxyTable.get t p) id
+  refine ⟨h1, ?_, ?_, ?_⟩
+  · simp only [ProxyTable.cancel, ProxyTable.get_put, if_true]; exact h2
+  · intro q hq; simp only [ProxyTable.cancel, ProxyTable.get_put, hq, if_false]
+  · intro q hq; simp only [ProxyTable.onOk, ProxyTable.get_put, hq, if_false]
+
+/-- Two proxies on two connections both hold rule id 0; after the first cancelled its id 0, the second's
+`cancelSignalNotification(0)` still calls `delMatch(0)` on its own connection. -/
+example : let t := ProxyTable.onOk (ProxyTable.onOk [] 0 0) 1 0
+    (ProxyTable.cancel (ProxyTable.cancel t 0 0).1 1 0).2 = some 0 := by decide
+
 /-! ## 5. the client connection -/
 
 /-- `client_refines_router`.  Over every history of `addMatch` / `delMatch` calls, replies from the daemon
@@ -539,6 +559,7 @@ end Txdbus.Route
 #print axioms Txdbus.Route.proxy_delivery
 #print axioms Txdbus.Route.proxy_select
 #print axioms Txdbus.Route.proxy_cancel
+#print axioms Txdbus.Route.proxy_cancel_per_proxy
 #print axioms Txdbus.Route.client_refines_router
 #print axioms Txdbus.Route.client_signal_exact
 #print axioms Txdbus.Route.bus_rules_mirror_local_rules
